@@ -736,6 +736,56 @@ func hdrLegacy(c *suiteCtx) {
 			rq, rs := l.VerifConvert()
 			c.emit(encCfg(fromOptionHeaders(rq))+" "+encCfg(fromOptionHeaders(rs)), "legacy", is(m), hx(pw))
 			c.count("legacy:flags")
+			// independent monitor: the header NAMES each flag combination configures, per the documented flag semantics
+			// (pass-basic-auth and pass-user-headers both imply the X-Forwarded-* identity headers; the Authorization header comes
+			// from pass-basic-auth with a password or from pass-authorization-header; x-auth-request is the response-side set)
+			wantReq := map[string]bool{}
+			if l.PassBasicAuth || l.PassUserHeaders {
+				for _, n := range []string{"X-Forwarded-User", "X-Forwarded-Groups", "X-Forwarded-Email", "X-Forwarded-Preferred-Username"} {
+					wantReq[n] = true
+				}
+			}
+			if l.PreferEmailToUser {
+				delete(wantReq, "X-Forwarded-Email") // documented: the e-mail travels as X-Forwarded-User instead
+			}
+			if (l.PassBasicAuth && pw != "") || l.PassAuthorization {
+				wantReq["Authorization"] = true
+			}
+			if l.PassAccessToken {
+				wantReq["X-Forwarded-Access-Token"] = true
+			}
+			gotReq := map[string]bool{}
+			for _, h := range rq {
+				gotReq[http.CanonicalHeaderKey(h.Name)] = true
+			}
+			for n := range wantReq {
+				if !gotReq[n] {
+					c.violation("C07", "legacy options: the request header "+n+" that this flag combination configures is missing from the injected list, so it is neither derived from the session nor stripped (client values under that name reach the upstream)",
+						map[string]interface{}{"flags": fmt.Sprintf("%+v", l), "configured_names": fmt.Sprint(gotReq)})
+				}
+			}
+			wantResp := map[string]bool{}
+			if l.SetXAuthRequest {
+				for _, n := range []string{"X-Auth-Request-User", "X-Auth-Request-Email", "X-Auth-Request-Groups", "X-Auth-Request-Preferred-Username"} {
+					wantResp[n] = true
+				}
+				if l.PassAccessToken {
+					wantResp["X-Auth-Request-Access-Token"] = true
+				}
+			}
+			if l.SetBasicAuth || l.SetAuthorization {
+				wantResp["Authorization"] = true
+			}
+			gotResp := map[string]bool{}
+			for _, h := range rs {
+				gotResp[http.CanonicalHeaderKey(h.Name)] = true
+			}
+			for n := range wantResp {
+				if !gotResp[n] {
+					c.violation("C07", "legacy options: the auth-only response header "+n+" that this flag combination configures is missing from the injected list",
+						map[string]interface{}{"flags": fmt.Sprintf("%+v", l), "configured_names": fmt.Sprint(gotResp)})
+				}
+			}
 			// monitor: skip-auth-strip-headers decides preservation of every request header
 			for _, h := range rq {
 				if h.PreserveRequestValue == l.SkipAuthStripHeaders {
